@@ -228,16 +228,19 @@ impl<R: Read + Seek> ReadBox<&mut R> for AvcCBox {
         let profile_compatibility = reader.read_u8()?;
         let avc_level_indication = reader.read_u8()?;
         let length_size_minus_one = reader.read_u8()? & 0x3;
+        // Parameter sets must lie inside the box: their lengths are unchecked 16-bit fields,
+        // and following them past the end re-reads (and copies) whatever comes next in the file.
+        let end = start + size;
         let num_of_spss = reader.read_u8()? & 0x1F;
         let mut sequence_parameter_sets = Vec::with_capacity(num_of_spss as usize);
         for _ in 0..num_of_spss {
-            let nal_unit = NalUnit::read(reader)?;
+            let nal_unit = NalUnit::read(reader, end)?;
             sequence_parameter_sets.push(nal_unit);
         }
         let num_of_ppss = reader.read_u8()?;
         let mut picture_parameter_sets = Vec::with_capacity(num_of_ppss as usize);
         for _ in 0..num_of_ppss {
-            let nal_unit = NalUnit::read(reader)?;
+            let nal_unit = NalUnit::read(reader, end)?;
             picture_parameter_sets.push(nal_unit);
         }
 
@@ -295,8 +298,13 @@ impl NalUnit {
         2 + self.bytes.len()
     }
 
-    fn read<R: Read + Seek>(reader: &mut R) -> Result<Self> {
+    fn read<R: Read + Seek>(reader: &mut R, end: u64) -> Result<Self> {
         let length = reader.read_u16::<BigEndian>()? as usize;
+        if reader.stream_position()? + length as u64 > end {
+            return Err(Error::InvalidData(
+                "avcC parameter set extends beyond the box",
+            ));
+        }
         let mut bytes = vec![0u8; length];
         reader.read_exact(&mut bytes)?;
         Ok(NalUnit { bytes })
